@@ -181,9 +181,14 @@ def run_construct(case):
         if isinstance(f, np.ndarray) and np.shares_memory(p.points, f):
             res.violate("stored-points-alias-input", form=fname)
         # the setter
-        p2 = tdgl.Polygon("r", points=ccw)
+        p2 = tdgl.Polygon("r", points=ccw * 0.5 + 3.0)
+        p2.contains_points(probes[:7])  # queried, then re-assigned
         p2.points = f
         check_stored(res, p2, f"setter:{fname}", {"shape": case["shape"]})
+        if not np.array_equal(p2.contains_points(probes[keep]), want):
+            res.violate("membership-stale-after-points-assignment", form=fname, detail={"shape": case["shape"]})
+        if abs(p2.area - area) > TOLERANCES["area"] * area:
+            res.violate("area-stale-after-points-assignment", form=fname)
     res.nontrivial = True
     res.outcome = "construct"
     return res
@@ -383,6 +388,10 @@ def run_transform(case):
             P = tdgl.Polygon("P", points=raw)
             p0 = P.points.copy()
             area0 = P.area
+            # the object has a history: it was queried before being transformed
+            P.contains_points(probes[:7])
+            P.on_boundary(probes[:7])
+            _ = P.bbox, P.extents, P.is_valid
             res.count("programs")
             if kind == "rotate":
                 R = P.rotate(par[0], origin=par[1], inplace=inplace)
@@ -483,6 +492,21 @@ def run_device(case):
         if not same_snapshot(snap, snapshot(dev)):
             res.violate("device-operation-mutates-source", op=label, detail={"dev": name})
             break
+        # membership of the new device follows its own (transformed) polygons
+        n_out = [new.film.points] + [h.points for h in new.holes]
+        kp = ~near_outline(probes, n_out)
+        wantn = pip(probes[kp], new.film.points)
+        for h in new.holes:
+            wantn &= ~pip(probes[kp], h.points)
+        res.count("probe_tests", int(kp.sum()))
+        if not np.array_equal(new.contains_points(probes[kp]), wantn):
+            res.violate("transformed-device-membership-does-not-follow-its-polygons", op=label, has_probe_points=bool(dev.probe_points is not None),
+                        detail={"dev": name})
+        if new.probe_points is not None and not new.contains_points(new.probe_points).all():
+            res.violate("transformed-device-does-not-contain-its-probe-points", op=label, detail={"dev": name})
+        for t_old, t_new in zip(dev.terminals, new.terminals):
+            if label != "copy" and np.array_equal(t_old.points, t_new.points):
+                res.violate("terminal-not-transformed-with-device", op=label)
         if new is dev:
             res.violate("device-operation-returns-self", op=label)
         shared = [np.shares_memory(a.points, b.points) for a, b in zip(new.polygons, dev.polygons)]
@@ -498,7 +522,18 @@ def run_device(case):
             break
     # in-place translation context manager restores the device
     with dev.translation(0.7, -0.3, dz=0.2):
-        pass
+        shifted = [dev.film.points] + [h.points for h in dev.holes]
+        kp = ~near_outline(probes, shifted)
+        wants = pip(probes[kp], dev.film.points)
+        for h in dev.holes:
+            wants &= ~pip(probes[kp], h.points)
+        if not np.array_equal(dev.contains_points(probes[kp]), wants):
+            res.violate("membership-inside-translation-context", detail={"dev": name})
+        if np.abs(dev.film.points - (snap[0] + np.array([0.7, -0.3]))).max() > 1e-12:
+            res.violate("translation-context-does-not-translate")
+    got_after = dev.contains_points(pk)
+    if not np.array_equal(got_after, want):
+        res.violate("membership-after-translation-context", detail={"dev": name})
     after = snapshot(dev)
     if not (np.allclose(after[0], snap[0], atol=1e-12) and after[4] == snap[4] or abs(after[4] - snap[4]) < 1e-12):
         res.violate("translation-context-does-not-restore")
